@@ -128,6 +128,22 @@ func c02Repeat(useShipped bool) func(t *rapid.T) {
 			// under other limits/options): the answer must not depend on a database's past
 			warmUp(t, db, cmds, q, opt)
 		}
+		// the second copy gets its own, equal options value (maps and slices are not shared)
+		opt2 := opt
+		if opt.ContextBoosts != nil {
+			opt2.ContextBoosts = map[string]float64{}
+			for k, v := range opt.ContextBoosts {
+				opt2.ContextBoosts[k] = v
+			}
+		}
+		opt2.Platforms = append([]string(nil), opt.Platforms...)
+		if !useShipped && rapid.Bool().Draw(t, "other-queries-same-options") {
+			// the caller's one options value serves several different queries before this one
+			for i := rapid.IntRange(1, 3).Draw(t, "n-other"); i > 0; i-- {
+				oq, _ := gen.Query(t, cmds, []gen.QueryClass{"vocab", "nlp", "nlp", "mixed"})
+				db.SearchUniversal(oq, opt)
+			}
+		}
 		first := rank(db, db.SearchUniversal(q, opt))
 		reps := 6
 		if useShipped {
@@ -141,7 +157,7 @@ func c02Repeat(useShipped bool) func(t *rapid.T) {
 		}
 		if db2 != nil {
 			for rep := 0; rep < 2; rep++ {
-				other := rank(db2, db2.SearchUniversal(q, opt))
+				other := rank(db2, db2.SearchUniversal(q, opt2))
 				if !rankEq(first, other) {
 					t.Fatalf("independently loaded copy differs for query %q options %v\n first: %s\n other: %s\n db=%v", q, optBrief(opt), rankStr(first), rankStr(other), gen.BriefDB(cmds, 12))
 				}
